@@ -192,13 +192,16 @@ def allDone (s : CState V) : Bool :=
 /-- The traced scheduler of harness/c13.py stops a thread BEFORE source lines (the `for` line, the
 `if ax == axes` line, the `append` line): one quantum of a real thread is one model step plus the
 steps that follow on the same source line or on lines that are not scheduling points — the first
-`next()` after creating the iterator, and building the result after the loop is exhausted. -/
+`next()` after creating the iterator, building the result after the loop is exhausted, and the
+prologue of the thread's next call.  (Initially every thread is parked before its first call:
+its first quantum is the `idle` step alone.) -/
 def absorbedAt (s : CState V) (t : Nat) : Bool :=
   match s.threads[t]? with
   | some th =>
     (match th.pc with
      | .iter _ _ 0 _ => true
      | .compute _ => true
+     | .idle => !th.todo.isEmpty   -- a finished call runs on into the next call's prologue
      | _ => false)
   | none => false
 
